@@ -444,6 +444,8 @@ impl Interceptor for ActorIcpt {
                 "ok"
             }
             Outcome::Err(k) => kind_name(*k),
+            // the caller's task was aborted while the operation was in flight: effect unknown
+            Outcome::Abandoned => "Abandoned",
         };
         let dec = match (op.verb, op.content) {
             (Verb::Write, Some(c)) => decode::decode_for(op.path, c),
